@@ -369,6 +369,57 @@ pub fn run(ctx: &mut Ctx) {
             ctx.sample(s);
         }
     }
+    // semantic programs: every C02 world with at most one deviation (default use site and host position): each
+    // identifier occurrence in another letter case, one at a time and all at once; the verdict must not move
+    {
+        use crate::lex::{spell, Class};
+        let ws: Vec<crate::world::World> = crate::checks::c02::worlds(1).into_iter().filter(|w| !w.labels.iter().any(|l| l.starts_with("site=") || l.starts_with("hostpos="))).collect();
+        let res: Vec<Vec<(String, String, String)>> = ws
+            .par_iter()
+            .map(|w| {
+                let mut lx: Vec<Lexeme> = vec![];
+                for d in &w.decls {
+                    lx.extend(d.lx().v);
+                }
+                let base_text = spell(&lx).text;
+                let (bv, _) = front::check_texts(&[&base_text]);
+                let base = bv.short();
+                let mut fails = vec![];
+                let idents: Vec<usize> = (0..lx.len()).filter(|i| lx[*i].class == Class::Ident && lx[*i].text.chars().any(|c| c.is_ascii_alphabetic())).collect();
+                let flip = |t: &str| -> String { if t.chars().any(|c| c.is_ascii_lowercase()) { t.to_ascii_uppercase() } else { t.to_ascii_lowercase() } };
+                for &i in &idents {
+                    let mut m = lx.clone();
+                    m[i].text = flip(&m[i].text);
+                    let text = spell(&m).text;
+                    let (v, _) = front::check_texts(&[&text]);
+                    if v.short() != base {
+                        let prev = if i > 0 { lx[i - 1].text.to_uppercase() } else { "<start>".into() };
+                        let next = lx.get(i + 1).map(|l| l.text.to_uppercase()).unwrap_or_else(|| "<end>".into());
+                        fails.push((format!("world/identifier-case/{}·<id>·{}", prev, next), format!("identifier `{}` written `{}`: verdict {} instead of {}", lx[i].text, m[i].text, v.short(), base), text));
+                    }
+                }
+                let mut m = lx.clone();
+                for &i in &idents {
+                    m[i].text = flip(&m[i].text);
+                }
+                let text = spell(&m).text;
+                let (v, _) = front::check_texts(&[&text]);
+                if v.short() != base {
+                    fails.push(("world/all-identifiers-in-other-case".to_string(), format!("every identifier in the other letter case: verdict {} instead of {}", v.short(), base), text));
+                }
+                fails
+            })
+            .collect();
+        let mut n = 0u64;
+        for (w, fails) in ws.iter().zip(res.iter()) {
+            n += 1;
+            for (k, what, text) in fails {
+                ctx.fail(k, &format!("[{}] {}", w.labels.join(","), what), json!({"mode":"world-text","text": text, "base": w.text()}));
+            }
+        }
+        ctx.evaluations += n;
+        ctx.bounds.insert("semantic_programs".into(), json!(format!("{} worlds x every identifier occurrence", n)));
+    }
     // where commentary and string text begin and end decides what is code: exhaustive differential sweep
     crate::lexseg::run_into(ctx, if deep { 7 } else { 6 });
     ctx.states = cases.len() as u64 - skipped;
@@ -377,6 +428,11 @@ pub fn run(ctx: &mut Ctx) {
 }
 
 pub fn replay(case: &Value) -> Result<String, String> {
+    if case["mode"] == json!("world-text") {
+        let (a, _) = front::check_texts(&[case["base"].as_str().ok_or("base")?]);
+        let (b, _) = front::check_texts(&[case["text"].as_str().ok_or("text")?]);
+        return if a.short() == b.short() { Ok(format!("same verdict: {}", a.short())) } else { Err(format!("{} vs {}", a.short(), b.short())) };
+    }
     if case["mode"] == json!("lexical-structure") {
         return crate::lexseg::replay(case["text"].as_str().ok_or("text")?);
     }
